@@ -10,14 +10,26 @@ open DM.Model DM.Model.Enc DM.Model.Dec DM.Lemmas DM.Lemmas.DecRun DM.Lemmas.Asc
 /-- what may follow at an ASCII boundary: anything but a stray UNLATCH -/
 def NiceTail (t : List Nat) : Prop := t.head? ≠ some 254
 
-def Sync (body cw : List Nat) (pos : Nat) : Prop :=
+/-- `pre` = the codewords written before the data (FNC1 / Macro header codeword, consumed by
+`decode_parts` before its main loop), `out0` = what `decode_parts` has put into the output for them -/
+def Sync (pre out0 body cw : List Nat) (pos : Nat) : Prop :=
+  pre.length ≤ cw.length ∧ cw.take pre.length = pre ∧
   ∀ tail, NiceTail tail →
-    decRun .ascii { rest := cw ++ tail, eaten := 0, out := [], ecis := [] } =
-    decRun .ascii { rest := tail, eaten := cw.length, out := body.take pos, ecis := [] }
+    decRun .ascii { rest := cw.drop pre.length ++ tail, eaten := pre.length, out := out0, ecis := [] } =
+    decRun .ascii { rest := tail, eaten := cw.length, out := out0 ++ body.take pos, ecis := [] }
 
-theorem sync_init (body : List Nat) : Sync body [] 0 := by
+theorem sync_init (pre out0 body : List Nat) : Sync pre out0 body pre 0 := by
+  refine ⟨Nat.le_refl _, by simp, ?_⟩
   intro tail _
   simp
+
+theorem drop_append_pre (pre cw Y : List Nat) (h : pre.length ≤ cw.length) :
+    (cw ++ Y).drop pre.length = cw.drop pre.length ++ Y := by
+  rw [List.drop_append_of_le_length h]
+
+theorem take_append_pre (pre cw Y : List Nat) (h : pre.length ≤ cw.length) :
+    (cw ++ Y).take pre.length = cw.take pre.length := by
+  rw [List.take_append_of_le_length h]
 
 /-- `X` is a run of ASCII codewords that decodes to `chunk` -/
 def AsciiSeg (X chunk : List Nat) : Prop :=
@@ -57,15 +69,18 @@ theorem asciiSeg_pair (a b : Nat) (ha : isDigit a = true) (hb : isDigit b = true
   omega
 
 /-- an ASCII run extends a synchronised prefix -/
-theorem sync_ascii {body cw X chunk : List Nat} {pos : Nat} (hs : Sync body cw pos) (hx : AsciiSeg X chunk)
-    (hc : body.take (pos + chunk.length) = body.take pos ++ chunk) : Sync body (cw ++ X) (pos + chunk.length) := by
+theorem sync_ascii {pre out0 body cw X chunk : List Nat} {pos : Nat} (hs : Sync pre out0 body cw pos) (hx : AsciiSeg X chunk)
+    (hc : body.take (pos + chunk.length) = body.take pos ++ chunk) : Sync pre out0 body (cw ++ X) (pos + chunk.length) := by
+  obtain ⟨hpl, hpt, hs⟩ := hs
+  refine ⟨by simp; omega, by rw [take_append_pre pre cw X hpl]; exact hpt, ?_⟩
   intro tail ht
+  rw [drop_append_pre pre cw X hpl]
   have hnice : NiceTail (X ++ tail) := by
     unfold NiceTail at *
     cases X with
     | nil => simpa using ht
     | cons x xs => simp only [List.cons_append, List.head?_cons, ne_eq, Option.some.injEq]; exact (hx.1 x (by simp)).1
-  rw [List.append_assoc, hs (X ++ tail) hnice, hc]
+  rw [List.append_assoc, hs (X ++ tail) hnice, hc, ← List.append_assoc]
   -- one call of the decoder's ASCII loop covers `X` and whatever ASCII codewords follow
   by_cases hnil : X ++ tail = []
   · have h1 := List.append_eq_nil_iff.mp hnil
